@@ -138,7 +138,40 @@ class ScriptedSimulation(Simulation):
 def compile_scenario(text, mode2D=False, **kw):
     import scenic
 
+    LEFTOVER.extend(veneer_dirt(reset=True))
     return scenic.scenarioFromString(text, mode2D=mode2D, **kw)
+
+
+LEFTOVER = []  # dirt found (and cleaned) before a compile/run started; C14 judges it
+
+
+def veneer_dirt(reset=True):
+    """Names of veneer globals that are not in their pristine (inactive) state."""
+    import scenic.syntax.veneer as v
+
+    dirt = []
+    pristine = dict(
+        activity=0, currentSimulation=None, currentScenario=None, currentBehavior=None, evaluatingRequirement=False,
+        evaluatingGuard=False, mode2D=False, lockedParameters=None, lockedModel=None,
+    )
+    for name, want in pristine.items():
+        if not hasattr(v, name):
+            continue
+        have = getattr(v, name)
+        if name == "lockedParameters":
+            ok = not have
+        else:
+            ok = have == want if isinstance(want, (int, bool)) else have is want
+        if not ok:
+            dirt.append(name)
+            if reset:
+                setattr(v, name, want if name != "lockedParameters" else set())
+    for name in ("runningScenarios", "scenarioStack", "_globalParameters"):
+        if hasattr(v, name) and getattr(v, name):
+            dirt.append(name)
+            if reset:
+                setattr(v, name, type(getattr(v, name))())
+    return dirt
 
 
 def simulate(scene, *, tables=None, default=False, schedule=None, maxSteps=None, timestep=1, raiseGuardViolations=False, faults=None, fault=None, **kw):
@@ -152,9 +185,22 @@ def simulate(scene, *, tables=None, default=False, schedule=None, maxSteps=None,
     """
     from scenic.core.dynamics.guards import GuardViolation
 
+    LEFTOVER.extend(veneer_dirt(reset=True))
     probe.STATE.reset(tables=tables, fault=fault, default=default)
     simulator = ScriptedSimulator(schedule=schedule, faults=faults)
     res = {"log": probe.STATE.log}
+    try:
+        return _simulate(simulator, scene, res, maxSteps, timestep, raiseGuardViolations, kw)
+    finally:
+        # orphaned generators of a failed run are closed when its traceback is released,
+        # i.e. by now; record what that left behind (C14 judges it) and clean up so that the
+        # next run starts from a pristine interpreter state
+        res["veneer_dirty"] = veneer_dirt(reset=True)
+
+
+def _simulate(simulator, scene, res, maxSteps, timestep, raiseGuardViolations, kw):
+    from scenic.core.dynamics.guards import GuardViolation
+
     try:
         sim = simulator.simulate(scene, maxSteps=maxSteps, timestep=timestep, maxIterations=1, raiseGuardViolations=raiseGuardViolations, **kw)
     except GuardViolation as e:
@@ -162,7 +208,7 @@ def simulate(scene, *, tables=None, default=False, schedule=None, maxSteps=None,
         res["outcome"] = ("guard", type(e).__name__, last.currentTime if last else None)
         res["exception"] = e
         return res
-    except Exception as e:  # noqa: BLE001 - the harness observes any escape
+    except (Exception, probe.HangDetected) as e:  # noqa: BLE001 - the harness observes any escape
         res["outcome"] = ("error", type(e).__name__, str(e)[:200])
         res["exception"] = e
         res["simulation"] = simulator.last
